@@ -204,6 +204,15 @@ class ConstEval:
             if isinstance(base, str) and meth in ('strip', 'lower', 'upper', 'isdigit', 'isalpha',
                                                   'isupper', 'islower', 'isspace') and not args:
                 return getattr(base, meth)()
+            # pure string methods on a known string with known arguments
+            if isinstance(base, str) and meth in (
+                    'strip', 'lstrip', 'rstrip', 'startswith', 'endswith', 'replace', 'split',
+                    'ljust', 'rjust', 'zfill', 'count', 'find', 'format', 'join', 'title',
+                    'capitalize') and not _unk(*args) and not node.keywords:
+                try:
+                    return getattr(base, meth)(*args)
+                except (TypeError, ValueError, IndexError, KeyError):
+                    return UNKNOWN
         return UNKNOWN
 
     # ------------------------------------------------------------- statements
